@@ -257,6 +257,12 @@ retry_fetch_lv:
             if (final_check.get_vinsert_delete() != v_at_fetch_lv.get_vinsert_delete()) {
                 goto retry_fetch_lv; // NOLINT
             }
+            // A remove is not counted in the version and clears the slot before it shrinks
+            // the permutation: make sure the slot still belongs to this key.
+            if (target_border->get_lv_of_without_lock(key_tup.get_key_slice(),
+                                                      key_tup.get_key_length()) != lv_ptr) {
+                goto retry_fetch_lv; // NOLINT
+            }
             out = v_body;
             ctx->stack(key_tup, root, target_border, cmp_to_end,
                        {v_at_fb, permutation(target_border->get_permutation().get_body()), 0});
